@@ -45,6 +45,10 @@ func actF(kind, pattern, action string) fakedb.Fault {
 	return fakedb.Fault{Kinds: []string{kind}, Pattern: pattern, Count: 1, Action: action}
 }
 
+func errnoF(kind, pattern string, errno uint16) fakedb.Fault {
+	return fakedb.Fault{Kinds: []string{kind}, Pattern: pattern, Count: 1, Action: "error", ErrNo: errno}
+}
+
 func regRule(action string) tcstub.Rule {
 	return tcstub.Rule{Kind: "BranchRegister", Count: 1, Action: action}
 }
@@ -82,6 +86,14 @@ func c02AutoFaults() []c02Fault {
 		{name: "drop-s", db: []fakedb.Fault{actF("EXEC", "^(UPDATE|DELETE|INSERT)", "drop")}},
 		{name: "drop-uexec", db: []fakedb.Fault{actF("STMT_EXEC", "undo_log", "drop")}},
 		{name: "drop-commit", db: []fakedb.Fault{actF("COMMIT", "", "drop")}},
+		// error NUMBERS at the undo insert: duplicate key (what the INSERT gets when a phase-two rollback left its marker),
+		// lock wait timeout, deadlock
+		{name: "uexec-1062", db: []fakedb.Fault{errnoF("STMT_EXEC", "undo_log", 1062)}},
+		{name: "uexec-1205", db: []fakedb.Fault{errnoF("STMT_EXEC", "undo_log", 1205)}},
+		{name: "uexec-1213", db: []fakedb.Fault{errnoF("STMT_EXEC", "undo_log", 1213)}},
+		{name: "uprep-1062", db: []fakedb.Fault{errnoF("PREPARE", "undo_log", 1062)}},
+		{name: "commit-1213", db: []fakedb.Fault{errnoF("COMMIT", "", 1213)}},
+		{name: "s-1062", db: []fakedb.Fault{errnoF("EXEC", "^(UPDATE|DELETE|INSERT)", 1062)}},
 		{name: "reg-fail+rollback", db: []fakedb.Fault{fRollb, fRollbSQL}, tc: []tcstub.Rule{regRule("fail")}},
 	}
 	for _, k := range []int{1, 2, 5} {
@@ -104,6 +116,7 @@ func c02CommitFaults() []c02Fault {
 		{name: "commit", db: []fakedb.Fault{fCommit}}, {name: "commit+rollback", db: []fakedb.Fault{fCommit, fRollb, fRollbSQL}},
 		{name: "reg-fail", tc: []tcstub.Rule{regRule("fail")}}, {name: "reg-conflict", tc: []tcstub.Rule{regRule("lock-conflict")}},
 		{name: "reg-fail-nocode", tc: []tcstub.Rule{regRule("fail-nocode")}},
+		{name: "uexec-1062", db: []fakedb.Fault{errnoF("STMT_EXEC", "undo_log", 1062)}},
 		{name: "report1", tc: []tcstub.Rule{repRule(1)}}, {name: "commit+report4", db: []fakedb.Fault{fCommit}, tc: []tcstub.Rule{repRule(4)}}}
 }
 
@@ -230,6 +243,13 @@ func c02Cases(r *hutil.Rng, n int, thorough bool) []Case {
 	idx++
 	out = append(out, c02Pinned(idx, []c02Stmt{{kind: "update", rows: true, viaQuery: true}, {kind: "insert", rows: true, viaQuery: true}}, c02Fault{name: "none"}))
 	idx++
+	// an explicit transaction whose FIRST statement matches no row while a later one writes rows
+	for _, sh := range [][]c02Stmt{{{kind: "update", rows: false}, {kind: "insert", rows: true}}, {{kind: "update", rows: false}, {kind: "update", rows: true}, {kind: "delete", rows: true}}} {
+		for _, f := range []c02Fault{{name: "none"}, {name: "uexec", db: []fakedb.Fault{fUExec}}, {name: "commit", db: []fakedb.Fault{fCommit}}} {
+			out = append(out, c02Case(idx, "explicit", true, sh, f, "clean"))
+			idx++
+		}
+	}
 	expShapes := [][]c02Stmt{{{kind: "update", rows: true}}, {{kind: "update", rows: true}, {kind: "insert", rows: true}}, {{kind: "delete", rows: true}, {kind: "update", rows: false}}, {}, {{kind: "update", rows: false}}}
 	for _, sh := range expShapes {
 		for _, f := range c02CommitFaults() {
